@@ -159,6 +159,8 @@ def render(spec, allspecs=None):
     dd = spec.get('defval_dep')
     if dd and spec.get('oiddefval') and not spec.get('smiv1'):
         lines.append('    %s FROM %s' % (spec.get('defval_sym') or root_sym(dd), dd))
+    if spec.get('shadow_dep') and not spec.get('smiv1'):
+        lines.append('    DisplayString FROM %s' % spec['shadow_dep'])
     lines[-1] += ';'
     lines.append('')
     parent = root_sym(spec['oidparent']) if spec.get('oidparent') else 'enterprises'
@@ -306,7 +308,7 @@ NAME_POOL = ['AAA-MIB', 'BBB-MIB', 'CCC-MIB', 'DDD-MIB', 'EEE-MIB', 'FFF-MIB', '
 ARC_POOL = [1, 2, 4, 10, 48, 100, 4800, 99999]
 
 
-def gen_modules(rng, n, cycles=True, defects=0.0, compliance=0.3, identity=0.7, smiv1=0.0, oiddefval=0.0, enumtc=0.0):
+def gen_modules(rng, n, cycles=True, defects=0.0, compliance=0.3, identity=0.7, smiv1=0.0, oiddefval=0.0, enumtc=0.0, shadow=0.0):
     """-> dict name -> spec.  Import graph: random, with back edges and self
     imports when `cycles`; OID parents only point to lower-ranked modules."""
     names = NAME_POOL[:n]
@@ -352,6 +354,11 @@ def gen_modules(rng, n, cycles=True, defects=0.0, compliance=0.3, identity=0.7, 
                 spec['defval_dep'] = rng.choice(others)
                 if rng.random() < 0.4:
                     spec['defval_sym'] = sym(spec['defval_dep']) + 'NoSuchNode'
+        if shadow and rng.random() < shadow and not spec.get('smiv1'):
+            # the only symbol taken from this module carries the name of a textual convention that every module also
+            # gets from SNMPv2-TC: the module is named in IMPORTS all the same
+            others = [x for x in lower if x not in imports]
+            spec['shadow_dep'] = rng.choice(others) if others and rng.random() < 0.5 else 'LOST-MIB'
         if enumtc and rng.random() < enumtc:
             spec['enumtc'] = True
             if rng.random() < 0.3:
@@ -395,4 +402,6 @@ def declared_imports(spec):
         out.append(spec.get('spell', {}).get(d, d))
     if spec.get('defval_dep') and spec.get('oiddefval') and not spec.get('smiv1'):
         out.append(spec['defval_dep'])
+    if spec.get('shadow_dep') and not spec.get('smiv1'):
+        out.append(spec['shadow_dep'])
     return out
